@@ -20,6 +20,7 @@ import MsVerif.Lemmas.TapTreeBuilder
 import MsVerif.Lemmas.TapTreeCombine
 import MsVerif.Lemmas.TapTreeDisplay
 import MsVerif.Lemmas.TapTreeBip341
+import MsVerif.Lemmas.TapTreeTranslate
 
 namespace MsVerif.C15
 open MsVerif MsVerif.Spec MsVerif.Spec.Tree MsVerif.Tap
@@ -157,6 +158,44 @@ specification folds to the specification's root (so T2 is not vacuous in `siblin
 theorem spec_paths_verify (H : HashAlg α ν) (hc : H.Comm) (t : Tree α) :
     ∀ p ∈ siblingPaths H t, verifyPath H (H.leafHash p.1) p.2 = root H t :=
   siblingPaths_verify H hc t
+
+/-- T5, error propagation: `Tr::translate_pk` returns a descriptor exactly when every leaf
+translates (translator and context check) and the internal key does; otherwise it returns an
+error and nothing else -/
+theorem translate_pk_ok_iff (f : α → Except TrErr β) (fk : κ → Except TrErr ω) (ik : κ)
+    (t : TapTree α) :
+    (∃ r, trTranslate f fk ik (some t) = .ok r) ↔
+      (∀ p ∈ t, ∃ s, f p.2 = .ok s) ∧ ∃ k, fk ik = .ok k := by
+  rw [trTranslate_some, ← leafLoop_ok_iff]
+  cases hl : leafLoop f t with
+  | error e => simp
+  | ok t' => cases hk : fk ik <;> simp
+
+/-- T5: when it succeeds, every depth and the order are kept and leaf `i` is the translation of
+leaf `i`; the first error in translation order (leaves left to right, then the internal key)
+is the one reported -/
+theorem translate_pk_ok_preserves (f : α → Except TrErr β) (fk : κ → Except TrErr ω) (ik : κ)
+    (t : TapTree α) (k : ω) (t' : Option (TapTree β))
+    (h : trTranslate f fk ik (some t) = .ok (k, t')) :
+    ∃ t'', t' = some t'' ∧ fk ik = .ok k ∧ t''.map (·.1) = t.map (·.1) ∧
+      t''.map (fun p => Except.ok p.2) = t.map (fun p => f p.2) := by
+  rw [trTranslate_some] at h
+  cases hl : leafLoop f t with
+  | error e => simp [hl] at h
+  | ok t'' =>
+    cases hk : fk ik with
+    | error e => simp [hl, hk] at h
+    | ok k' =>
+      simp [hl, hk] at h
+      obtain ⟨rfl, rfl⟩ := h
+      exact ⟨t'', rfl, rfl, leafLoop_ok f t t'' hl⟩
+
+example : trTranslate (fun (i : Nat) => if i = 1 then .error .outer else .ok (i + 10))
+    (fun (_ : Nat) => (.error .translator : Except TrErr Nat)) 0 (some [(1, 0), (1, 1)])
+    = .error .outer := by rfl
+example : trTranslate (fun (i : Nat) => (.ok (i + 10) : Except TrErr Nat))
+    (fun (k : Nat) => (.ok k : Except TrErr Nat)) 7 (some [(1, 0), (1, 1)])
+    = .ok (7, some [(1, 10), (1, 11)]) := by rfl
 
 /-! ## Real hashes: the byte-level BIP341 instance (Spec/Bip341.lean)
 
